@@ -24,7 +24,7 @@ def sh(cmd, cwd=None, timeout=3600):
 
 def make_tree(dst):
     """git worktree of /repo's HEAD plus the (ignored) configure/build products, so that make is incremental"""
-    rc, out = sh(["git", "-C", REPO, "worktree", "add", "--detach", dst, "HEAD"])
+    rc, out = sh(["git", "-C", REPO, "worktree", "add", "--detach", dst, os.environ.get("SEED_BASE", "HEAD")])
     if rc != 0:
         raise RuntimeError(out)
     sh("cp -an %s/. %s/" % (REPO, dst))
